@@ -3,7 +3,7 @@
 # Confirms a seeded change produced under /tmp/seed/<ID>.work/<n>/ in the scratch worktree /tmp/seed/<ID>:
 # applies patch.diff, runs the existing suite (must pass), runs the demonstration (must fail), undoes the patch,
 # runs the demonstration again (must pass). Prints CONFIRMED or the step that failed.
-ID="$1"; N="$2"; WT=/tmp/seed/$ID; W=/tmp/seed/$ID.work; D=$W/$N
+ID="$1"; N="$2"; R=${SEED_ROOT:-/tmp/seed}; WT=$R/$ID; W=$R/$ID.work; D=$W/$N
 export CARGO_TARGET_DIR=$W/target CARGO_NET_OFFLINE=true
 git -C $WT checkout -- . ; git -C $WT clean -fdq
 git -C $WT apply $D/patch.diff || { echo "NOT-CONFIRMED $ID/$N: patch does not apply"; exit 1; }
